@@ -1,6 +1,7 @@
 """command line: check CNN quick|thorough ; check replay <file> ; check all <tier>"""
 import importlib
 import json
+import re
 import os
 import sys
 
@@ -37,7 +38,7 @@ def main(argv):
         worst = 0
         here = os.path.join(os.path.dirname(os.path.abspath(__file__)), "rules")
         for fn in sorted(os.listdir(here)):
-            if fn.startswith("c") and fn.endswith(".py"):
+            if re.match(r"c\d+\.py$", fn):
                 worst = max(worst, run(fn[:-3].upper(), tier))
         return worst
     return run(argv[0].upper(), tier)
